@@ -5,6 +5,9 @@ import Rangers.Model.Bls14Hash
 import Rangers.Model.Bls14Jac
 import Rangers.Model.Bls14G2
 import Rangers.Model.Bls14Pairing
+import Rangers.Model.Bls14Text
+import Rangers.Model.Bls14Misc
+import Rangers.Model.Bls14G2Jac
 /-!
 Line-protocol driver for C14. One op per line; see harness/cmd/c14/main.go for the
 Go side. Anything that does not parse answers `bad-op` (never a default).
@@ -62,6 +65,14 @@ def gt? (h : String) : Option F12 := do
   let f2 (i : Nat) : F2 := ⟨c i, c (i + 1)⟩
   let f6 (i : Nat) : F6 := ⟨f2 i, f2 (i + 2), f2 (i + 4)⟩
   some ⟨f6 0, f6 6⟩
+
+/-- a string token: hex of its ASCII bytes -/
+def str? (h : String) : Option (List Char) := (ofHex? h).map (fun b => b.map (fun c => Char.ofNat c.toNat))
+
+def setHexStr : SetHexRes → Nat → String
+  | .argFailed, old => "argfail " ++ toString old
+  | .ok v, _ => "ok " ++ toString v
+  | .unmodelled, _ => "unmodelled"
 
 def g1ValStr : G1Val → String
   | .nil => "nil"
@@ -219,10 +230,14 @@ def step (_ : Unit) (line : String) : Unit × String :=
     | some p => toHex (g2Marshal p.neg)
     | none => "bad-op"
   | ["g2add", a, b] => match pt2? a, pt2? b with
-    | some p, some q => toHex (g2Marshal (p.add q))
+    | some p, some q =>
+      let r := g2Marshal (p.add q)
+      if j2Marshal (j2Add (Jac2.ofPt p) (Jac2.ofPt q)) == r then toHex r else "jacobian-affine-mismatch"
     | _, _ => "bad-op"
   | ["g2mul", a, k] => match pt2? a, k.toNat? with
-    | some p, some k => toHex (g2Marshal (p.mul k))
+    | some p, some k =>
+      let r := g2Marshal (p.mul k)
+      if j2Marshal (j2Mul (Jac2.ofPt p) k) == r then toHex r else "jacobian-affine-mismatch"
     | _, _ => "bad-op"
   | ["pkgen", k] => match k.toNat? with
     | some k =>
@@ -235,6 +250,96 @@ def step (_ : Unit) (line : String) : Unit × String :=
       | some q => toHex (g2Marshal q)
       | none => "nil"
     | none => "bad-op"
+  | ["j2lin", a, k1, b, k2] => match pt2? a, k1.toNat?, pt2? b, k2.toNat? with
+    -- G2: Add(ScalarMult(a,k1), ScalarMult(b,k2)) and Neg of the first, on non-normalised operands
+    | some p, some k1, some q, some k2 =>
+      let x := j2Mul (Jac2.ofPt p) k1
+      toHex (j2Marshal (j2Add x (j2Mul (Jac2.ofPt q) k2))) ++ " " ++ toHex (j2Marshal (j2Neg x))
+        ++ " " ++ toHex (j2Marshal (j2Add x x))
+    | _, _, _, _ => "bad-op"
+  | ["sigeq", h1, h2] => match ofHex? h1, ofHex? h2 with
+    | some b1, some b2 => b01 (sigIsEqual (deserializeSign b1) (deserializeSign b2))
+    | _, _ => "bad-op"
+  | ["pkeq", h1, h2] => match ofHex? h1, ofHex? h2 with
+    | some b1, some b2 => b01 (pubIsEqual (byteToPublicKey b1) (byteToPublicKey b2))
+    | _, _ => "bad-op"
+  | ["scpred", a, b] => match a.toNat?, b.toNat? with
+    | some a, some b => "valid=" ++ b01 (scalarIsValid a) ++ " eq=" ++ b01 (scalarIsEqual a b)
+    | _, _ => "bad-op"
+  | "skagg" :: ks => match ks.mapM String.toNat? with
+    | some vs => match aggregateSeckeys vs with
+      | some v => toString v
+      | none => "nil"
+    | none => "bad-op"
+  | ["skrand", h] => match ofHex? h with
+    | some b => if b.length != 32 then "bad-op" else toString (seckeyFromRand b)
+    | none => "bad-op"
+  | ["newid", h] => match ofHex? h with
+    | some b =>
+      let pk := byteToPublicKey b
+      toString (newIDFromPubkey pk) ++ " addr=" ++ toHex (pubGetAddress pk)
+    | none => "bad-op"
+  | ["idaddr", k] => match k.toNat? with
+    | some k => match idToAddress k with
+      | some a => toHex a
+      | none => "PANIC"
+    | none => "bad-op"
+  | ["shorts", what, h] => match ofHex? h with
+    | some b =>
+      if what == "sig" then String.ofList (shortHex12 (sigGetHexString (deserializeSign b)))
+      else if what == "pk" then String.ofList (shortHex12 (pubGetHexString (byteToPublicKey b)))
+      else "bad-op"
+    | none => "bad-op"
+  | ["skhex", k] => match k.toNat? with
+    | some k => String.ofList (bnGetHexString k)
+    | none => "bad-op"
+  | ["skseth", old, sh] => match old.toNat?, str? sh with
+    | some old, some s => setHexStr (bnSetHexString old s) old
+    | _, _ => "bad-op"
+  | ["idhex", k] => match k.toNat? with
+    | some k => match idGetHexString k with
+      | some s => String.ofList s
+      | none => "PANIC"
+    | none => "bad-op"
+  | ["idseth", old, sh] => match old.toNat?, str? sh with
+    | some old, some s => setHexStr (bnSetHexString old s) old
+    | _, _ => "bad-op"
+  | ["idjson", k] => match k.toNat? with
+    | some k => match idGetHexString k with
+      | some s => String.ofList (jsonQuote s)
+      | none => "PANIC"
+    | none => "bad-op"
+  | ["idunjson", old, sh] => match old.toNat?, str? sh with
+    | some old, some s => match jsonStrip s with
+      | some inner => setHexStr (bnSetHexString old inner) old
+      | none => "short " ++ toString old
+    | _, _ => "bad-op"
+  | ["sighex", h] => match ofHex? h with
+    | some b => String.ofList (sigGetHexString (deserializeSign b))
+    | none => "bad-op"
+  | ["sigseth", h, sh] => match ofHex? h, str? sh with
+    | some b, some s =>
+      let (v, e) := sigSetHexString (deserializeSign b) s
+      "err=" ++ b01 e ++ " " ++ sigReport v
+    | _, _ => "bad-op"
+  | ["pkhex", h] => match ofHex? h with
+    | some b => String.ofList (pubGetHexString (byteToPublicKey b))
+    | none => "bad-op"
+  | ["pkseth", h, sh] => match ofHex? h, str? sh with
+    | some b, some s =>
+      let (v, e) := pubSetHexString (byteToPublicKey b) s
+      "err=" ++ b01 e ++ " " ++ pubReport v
+    | _, _ => "bad-op"
+  | ["pkjson", h] => match ofHex? h with
+    | some b => String.ofList (jsonQuote (pubGetHexString (byteToPublicKey b)))
+    | none => "bad-op"
+  | ["pkunjson", h, sh] => match ofHex? h, str? sh with
+    | some b, some s => match jsonStrip s with
+      | some inner =>
+        let (v, e) := pubSetHexString (byteToPublicKey b) inner
+        "err=" ++ b01 e ++ " " ++ pubReport v
+      | none => "short " ++ pubReport (byteToPublicKey b)
+    | _, _ => "bad-op"
   | ["skser", k] => match k.toNat? with
     | some k => toHex (scalarSerialize k)
     | none => "bad-op"
